@@ -1,4 +1,4 @@
-use std::collections::HashMap;
+use std::collections::{HashMap, HashSet};
 use sylt_common::error::{Error, Helper, TypeError};
 use sylt_common::{FileOrLib, TyID, Type as RuntimeType};
 use sylt_parser::{Span, TypeConstraint, VarKind};
@@ -171,6 +171,8 @@ pub struct TypeChecker {
     // The functions whose bodies are being checked right now - a function is not generic inside
     // its own body.
     defining: Vec<usize>,
+    // The names of blobs and enums: a type is not a value.
+    type_names: HashSet<usize>,
 }
 
 #[derive(Clone, Debug, Copy)]
@@ -204,6 +206,7 @@ impl TypeChecker {
                 .map(|(a, b)| (b.clone(), a.clone()))
                 .collect(),
             defining: Vec::new(),
+            type_names: HashSet::new(),
         };
         for var in variables {
             let ty = res.push_type(Type::Unknown);
@@ -719,6 +722,14 @@ impl TypeChecker {
         use Expression as E;
         let (expr_ret, expr) = match expression {
             E::Read { var, span, .. } => {
+                if self.type_names.contains(var) {
+                    return err_type_error!(
+                        self,
+                        *span,
+                        TypeError::Exotic,
+                        "A type is not a value - it can only be instantiated or name a variant"
+                    );
+                }
                 let var = &self.variables[*var];
                 let immutable = var.kind.immutable();
                 if ctx.inside_pure && !immutable {
@@ -2116,6 +2127,11 @@ impl TypeChecker {
     #[sylt_macro::timed("typechecker::solve")]
     fn solve(&mut self, statements: &Vec<Statement>, start_var: Option<&Var>) -> TypeResult<()> {
         let ctx = TypeCtx::new();
+        for statement in statements.iter() {
+            if let Statement::Blob { var, .. } | Statement::Enum { var, .. } = statement {
+                self.type_names.insert(*var);
+            }
+        }
         for statement in statements.iter() {
             self.outer_statement(statement, ctx)?;
         }
